@@ -154,6 +154,18 @@ func defsRun(s *Summary, l defsLine) {
 				return
 			}
 			// the registration entry points take turns: every one of them applies the same checks
+			if handler == nil && l.Nmw >= 1 && oi >= 3 {
+				// no main handler, but the route object already carries middleware when it is registered
+				switch oi {
+				case 3:
+					rux.NewRoute(path, nil, method).Use(mw...).AttachTo(r)
+				case 4:
+					r.AddRoute(rux.NewNamedRoute("n", path, nil, method).Use(mw...))
+				default:
+					r.Any(path, nil, mw...)
+				}
+				return
+			}
 			if method == "GET" && handler != nil && oi >= 4 {
 				// Any() registers the route for every method: the same checks, also inside a group without middleware
 				if oi == 4 {
